@@ -149,6 +149,14 @@ def rule_release(ctx, rule):
         ctx.check(ok, rule, f.short, "rename-then-unlink",
                   message=f"{cls.name}.release can return normally without os.rename followed by os.unlink",
                   how="ordered must-pass-through rename -> unlink on every normal path", witness=wit)
+        # release must work for a lock file created by somebody else (grace-period take-over calls
+        # self.release() on a foreign lock): nothing may raise or return before the rename attempt
+        early = g.reachable([g.entry], avoid_nodes=ren, edge_ok=NORMAL)
+        early_exit = [x for x in early if x is g.exit or (x.kind == "stmt" and isinstance(x.ast, (ast.Raise, ast.Return)))]
+        ctx.check(not early_exit, rule, f.short, "release-unconditional",
+                  message=f"{cls.name}.release can raise/return before attempting os.rename (e.g. an ownership test): the stale-lock "
+                          f"take-over in acquire(), which releases a lock file left behind by a dead process, can never succeed",
+                  how="os.rename is attempted on every path from entry", witness=g.witness(early_exit, guards=ren, edge_ok=NORMAL) if early_exit else None)
         # the rename target is a fresh unique name and the same name is unlinked
         fresh = False
         same = False
